@@ -30,6 +30,15 @@ impl IoWrapper {
     }
 }
 
+#[cfg(jence_verif)]
+impl IoWrapper {
+    /// An input wrapper that is not connected to stdin (the verification driver owns stdin).
+    pub fn verif_detached() -> Self {
+        let (_tx, rx) = mpsc::channel::<String>();
+        Self { receiver: rx }
+    }
+}
+
 fn init_input_thread() -> Receiver<String> {
     let (tx, rx) = mpsc::channel::<String>();
     thread::spawn(move || loop {
